@@ -739,6 +739,12 @@ func (w *World) checkOutput(st *Step, hist func() string) {
 			}
 			s := w.c03For(owner)
 			s.shown = append(s.shown, cl.Line...)
+			if owner.id == w.lateOutA {
+				w.viol("C01", "output-after-stream-ended", fmt.Sprintf(
+					"the operator was shown %q, sent on the stream of a%d after its Connect call had returned (the stream is attached to nothing any more)%s", cl.Line, owner.id, hist()))
+				w.viol("C03", "output-after-stream-ended", fmt.Sprintf(
+					"the operator was shown %q, sent on the stream of a%d after its Connect call had returned%s", cl.Line, owner.id, hist()))
+			}
 			if s.closeSeen {
 				w.viol("C03", "output-after-close-notice", fmt.Sprintf(
 					"output of a%d shown after its 'connection closed' notice%s", owner.id, hist()))
